@@ -8,11 +8,17 @@
 (***************************************************************************)
 EXTENDS ReifyOps, Json, IOUtils
 Trace == ndJsonDeserialize(IOEnv.TRACE)
-VARIABLES l
-tvars == <<l>>
-TInit == l = 1
+VARIABLES l,
+          hm    \* the block table of the current case's latest "reify" line (HostileOps), empty when it is not modelled
+tvars == <<l, hm>>
+NoModel == [H |-> <<>>, root |-> 0, dg |-> <<>>, ok |-> FALSE]
+TInit == l = 1 /\ hm = NoModel
 IsEv(e) == l <= Len(Trace) /\ Trace[l].ev = e /\ l' = l + 1
-TNext == IsEv("crash") \/ IsEv("reset") \/ IsEv("reify") \/ IsEv("hop") \/ (l = Len(Trace) + 1 /\ UNCHANGED l)
+TNext == \/ IsEv("crash") /\ UNCHANGED hm
+         \/ IsEv("reset") /\ hm' = NoModel
+         \/ IsEv("reify") /\ hm' = [H |-> Trace[l].H, root |-> Trace[l].hroot, dg |-> Trace[l].hdigits, ok |-> Trace[l].res = "hamtdir"]
+         \/ IsEv("hop") /\ UNCHANGED hm
+         \/ (l = Len(Trace) + 1 /\ UNCHANGED tvars)
 TraceSpec == TInit /\ [][TNext]_tvars
 
 Has == l > 1
@@ -33,12 +39,28 @@ HasADL == IsR /\ IsADLResult(Ev.res) /\ DOMAIN Ev.adl # {}
 Cond_X_ADLBytes == (HasADL /\ Ev.kind = "bytes") => ADLBytesOK(Ev.adl)
 Cond_X_ADLBytesLength == (HasADL /\ Ev.kind = "bytes") => ADLBytesLength(Ev.adl)
 Cond_X_ADLMap == (HasADL /\ Ev.kind = "map") => ADLMapOK(Ev.adl)
+\* beyond the listed properties: the outcome of every operation on a hostile sharded directory is the one the
+\* transcription of the reader (HostileOps) predicts from the stored blocks
+HO == INSTANCE HostileOps
+Modelled == hm.root # 0 /\ Len(hm.H) > 0 /\ hm.ok
+Cond_X_HamtReify == (IsR /\ Ev.hroot # 0 /\ Len(Ev.H) > 0 /\ Ev.res \in {"hamtdir", "error"}) =>
+    ((Ev.res = "hamtdir") <=> (HO!ShardOK(Ev.H[Ev.hroot]) /\ (Ev.variant = "preload" => HO!Len_(Ev.H, Ev.hroot) # -1)))
+Cond_X_HamtLookup == (IsH /\ Modelled /\ Ev.op = "lookup-string" /\ Ev.key > 0 /\ Ev.key <= Len(hm.dg) /\ Ev.out \in {"value", "error"}) =>
+    Ev.info = HO!Lookup(hm.H, hm.root, hm.dg[Ev.key], 0, Ev.key).res
+Cond_X_HamtLength == (IsH /\ Modelled /\ Ev.op = "length" /\ Ev.n >= 0) => Ev.n = HO!LengthReported(hm.H, hm.root)
+Cond_X_HamtIter == (IsH /\ Modelled /\ Ev.op = "iter-map" /\ Ev.out = "value") =>
+    LET r == HO!Iter(hm.H, hm.root) IN Ev.steps = Len(r) /\ Ev.errs = HO!CountOf(r, "e")
+
 Chk(nm, c) == c \/ PrintT(<<"VIOL", nm, l - 1>>)
 Inv_NoPanic == Chk("Inv_NoPanic", Cond_NoPanic)
 Inv_C14_Typed_T == Chk("Inv_C14_Typed_T", Cond_C14_Typed)
 Inv_C14_Substrate == Chk("Inv_C14_Substrate", Cond_C14_Substrate)
 Inv_C13_Reify == Chk("Inv_C13_Reify", Cond_C13_Reify)
 Inv_C13_Op == Chk("Inv_C13_Op", Cond_C13_Op)
+Inv_X_HamtReify == Chk("Inv_X_HamtReify", Cond_X_HamtReify)
+Inv_X_HamtLookup == Chk("Inv_X_HamtLookup", Cond_X_HamtLookup)
+Inv_X_HamtLength == Chk("Inv_X_HamtLength", Cond_X_HamtLength)
+Inv_X_HamtIter == Chk("Inv_X_HamtIter", Cond_X_HamtIter)
 Inv_X_ADLBytes == Chk("Inv_X_ADLBytes", Cond_X_ADLBytes)
 Inv_X_ADLBytesLength == Chk("Inv_X_ADLBytesLength", Cond_X_ADLBytesLength)
 Inv_X_ADLMap == Chk("Inv_X_ADLMap", Cond_X_ADLMap)
